@@ -151,8 +151,13 @@ def run_case(case, ctx, st):
             eps = 1e-12
             if np.all(np.isfinite(P)) and P.shape == (n, K):
                 interior = bool(np.all(P > eps) and np.all(P < 1 - eps))
+                ref = None
                 if n <= 14 and interior and K >= 2:
-                    ref = ref_gemini(dist, ovo, P, A)
+                    try:
+                        ref = ref_gemini(dist, ovo, P, A)
+                    except RuntimeError:
+                        ctx.count("reference_lp_failed")     # HiGHS gave up on a degenerate transport LP: fall back below
+                if ref is not None:
                     tol = 1e-7 * max(1.0, abs(ref), float(np.max(np.abs(A))) if A is not None else 0.0)
                     if dist == "mmd":
                         from . import _gem
